@@ -435,8 +435,8 @@ def _construct(ctx, p, rng):
         if vk == 'nonfinite' and data.size:
             data.reshape(-1)[0] = np.inf          # the dtype carrier's first element is non-finite
         x = UTPM(data.copy())
-        for tshape in [2, (3,), (2, 3), ()]:
-            ts = (tshape,) if isinstance(tshape, int) else tshape
+        for tshape in [2, (3,), (2, 3), (), np.int64(4), np.prod(np.array([2, 2])), (np.int32(2), 3)]:          # every spelling of a shape NumPy accepts
+            ts = (int(tshape),) if isinstance(tshape, (int, np.integer)) else tuple(int(v) for v in tshape)
             for nm, f, ref0 in (('zeros', lambda: algopy.zeros(tshape, dtype=x), np.zeros), ('ones', lambda: algopy.ones(tshape, dtype=x), np.ones)):
                 ok, y = _try(ctx, nm, f)
                 if not ok:
@@ -445,6 +445,12 @@ def _construct(ctx, p, rng):
                 if not (isinstance(y, UTPM) and _eq(y.data, want)):
                     ctx.violation('%s:value:%s' % (nm, 'nonfinite-carrier' if vk == 'nonfinite' else 'finite'), {'shape': str(tshape), 'carrier': shape, 'got_shape': getattr(getattr(y, 'data', None), 'shape', None)}); continue
                 ctx.ok(nm, (nm, str(tshape), shape, D, P, vk))
+                # the caller owns the result: after changing it in place, the next request must not see the change
+                if isinstance(y, UTPM) and y.data.size:
+                    y.data[...] = 7.5
+                    ok2, y2 = _try(ctx, nm, f)
+                    if ok2 and not (isinstance(y2, UTPM) and _eq(y2.data, want)):
+                        ctx.violation('%s:earlier-result-modified-by-caller-leaks' % nm, {'shape': str(tshape), 'carrier': shape}); continue
         for nm, f, one in (('zeros_like', lambda: algopy.zeros_like(x), 0), ('ones_like', lambda: algopy.ones_like(x), 1), ('zeros_like', lambda: x.zeros_like(), 0), ('ones_like', lambda: x.ones_like(), 1)):
             ok, y = _try(ctx, nm, f)
             if not ok:
